@@ -96,4 +96,12 @@ DebugBackFails(ct, cells, backOut, back) ==
 \* dbg: the non-blank characters of Debug(from_pattern(t))
 PatternFails(ct, t, out, dbg) ==
   IF ValidPattern(ct, t) => (out = OutOk /\ dbg = t.chars) THEN {} ELSE {"pattern_debug"}
+\* displays as the constructors return them (new + draw, from_points, from_pattern of a Debug rendering, a clone): both
+\* checks are enabled, so a second draw of a touched cell and a draw outside the display panic with the respective
+\* message; the Debug rendering does not depend on width / precision flags of the format string (every Debug
+\* rendering round-trips through from_pattern)
+FreshFails(e) ==
+       (IF e.again_out = OutTwice THEN {} ELSE {"constructed_display_allows_second_draw"})
+  \cup (IF e.oob_out = OutOob THEN {} ELSE {"constructed_display_allows_out_of_bounds_draw"})
+  \cup (IF e.dbg_flags_same = 1 THEN {} ELSE {"debug_output_depends_on_format_flags"})
 =============================================================================
